@@ -23,6 +23,7 @@ CHECKS = {
     "C03": ["C03_Error", "C03_Failed", "C03_Cleanup", "C03_AtomicUpgrade", "C03_AtomicInstall"],
     "C06": ["C06_ReadOnly", "C06_EndSame"],
     "C07": ["C07_Refusal", "C07_Stamped", "C07_DeleteNamed"],
+    "C09": ["C09_CreateFresh", "C09_LoserClean", "C09_Quiescent", "C01_KeyIsBody", "C01_NextRevision"],
     "C12": ["C12_Order", "C12_DeleteBefore", "C12_DeletedByPolicy", "C12_PreHookGate", "C12_PostHookFails",
             "C12_NotInManifest", "C12_Disabled"],
 }
@@ -34,6 +35,8 @@ FAMILY = {
     "C03": dict(mc="MC_Fault", gen="MC_GenFault", quick=260, thorough=2500, drivers=["secret", "configmap", "memory"]),
     "C06": dict(mc="MC_Dry", gen="MC_GenDry", quick=260, thorough=2000, drivers=["secret", "memory", "configmap"]),
     "C07": dict(mc="MC_Own", gen="MC_GenOwn", quick=260, thorough=2000, drivers=["secret", "memory", "configmap"]),
+    "C09": dict(mc="MC_Conc", gen="MC_GenConc", quick=150, thorough=1500, drivers=["secret", "memory", "configmap"],
+                extra_mc=["MC_ConcDep.cfg"], extra_gen=["MC_GenConcDep.cfg", "MC_GenConc3.cfg"]),
     "C12": dict(mc="MC_Hooks", gen="MC_GenHooks", quick=260, thorough=2500, drivers=["secret", "memory", "configmap"]),
 }
 
@@ -220,8 +223,39 @@ def assign_drivers(raws, drivers, prefix):
     return scs
 
 
-def run_exhaustive(d, mc, tier, timeout):
-    cfg = mc + ("_thorough.cfg" if tier == "thorough" and os.path.exists(os.path.join(d, mc + "_thorough.cfg")) else ".cfg")
+def race_run(d, scs, seed, tier):
+    """C09, second sentence: the same operations run freely (no schedule) in a binary built with -race,
+    plus several goroutines hammering one storage backend. The race detector's report is an observation
+    the property names; it is outside the specification (DESIGN section 8)."""
+    hvr = vlib.build_hv("hv", race=True)
+    free = []
+    for s in scs[: (40 if tier == "quick" else 300)]:
+        c = dict(s)
+        c["sched"] = [{"k": "free", "p": 0}]
+        free.append(c)
+    sf = os.path.join(d, "race.ndjson")
+    with open(sf, "w") as f:
+        for s in free:
+            f.write(json.dumps(s) + "\n")
+    env = dict(os.environ, GORACE="halt_on_error=0 exitcode=66")
+    rc1, out1, _ = vlib.sh([hvr, "run", "-charts", os.path.join(vlib.SPEC, "charts.json"), "-in", sf, "-out", os.path.join(d, "race.trace.ndjson")],
+                           cwd=vlib.ROOT, env=env, timeout=1800, check=False)
+    rc2, out2, _ = vlib.sh([hvr, "stress", "-seed", str(seed), "-g", "8", "-k", "200" if tier == "quick" else "2000"],
+                           cwd=vlib.ROOT, env=env, timeout=1800, check=False)
+    races = out1.count("WARNING: DATA RACE") + out2.count("WARNING: DATA RACE")
+    panics = out2.count("STRESS-PANIC")
+    if rc1 not in (0, 66) or rc2 not in (0, 66):
+        raise Inconclusive("race run failed (%d, %d):\n%s\n%s" % (rc1, rc2, out1[-2000:], out2[-2000:]))
+    rep = None
+    if races or panics:
+        rep = os.path.join(d, "race_report.txt")
+        open(rep, "w").write(out1 + "\n" + out2)
+    return dict(races=races, panics=panics, free_runs=len(free), report=rep)
+
+
+def run_exhaustive(d, mc, tier, timeout, cfg=None):
+    if cfg is None:
+        cfg = mc + ("_thorough.cfg" if tier == "thorough" and os.path.exists(os.path.join(d, mc + "_thorough.cfg")) else ".cfg")
     rc, out, dt = vlib.tlc(d, mc + ".tla", cfg, workers=16, timeout=timeout, extra=["-lncheck", "final"] if False else [])
     gen, dist, depth = vlib.tlc_stats(out)
     err = vlib.tlc_failed(out)
@@ -298,26 +332,43 @@ def run(pid, tier, seed, replay=None):
             print("KNOWN-FINDING: property=%s %s" % (pid, kf))
         return 1 if res["violations"] else 0
 
-    # 2. exhaustive model check of the specification
-    ex = run_exhaustive(d, fam["mc"], tier, timeout=1500 if tier == "quick" else 5400)
-    if ex["error"]:
-        # a model-level violation is a lead, never a verdict (DESIGN 2.4 case 2)
-        log("MODEL: exhaustive run of %s reported: %s" % (fam["mc"], ex["error"]))
-        log(ex["out"][-3000:])
-        raise Inconclusive("the specification violates its own invariants in %s; see log" % fam["mc"])
+    # 2. exhaustive model check of the specification (one or several configurations)
+    cfgs = [None] + list(fam.get("extra_mc", []))
+    exs = []
+    for c in cfgs:
+        ex = run_exhaustive(d, fam["mc"], tier, timeout=1500 if tier == "quick" else 5400, cfg=c)
+        if ex["error"]:
+            # a model-level violation is a lead, never a verdict (DESIGN 2.4 case 2)
+            log("MODEL: exhaustive run of %s reported: %s" % (ex["cfg"], ex["error"]))
+            log(ex["out"][-3000:])
+            raise Inconclusive("the specification violates its own invariants in %s; see log" % ex["cfg"])
+        exs.append(ex)
+    ex = dict(cfg="+".join(e["cfg"] for e in exs), generated=sum(e["generated"] for e in exs),
+              distinct=sum(e["distinct"] for e in exs), depth=max(e["depth"] for e in exs),
+              seconds=round(sum(e["seconds"] for e in exs), 1))
 
     # 3-4. scenarios from TLC, replayed on the real code
     n = fam[tier]
-    raws, gout = vlib.generate(d, fam["gen"] + ".tla", fam["gen"] + ".cfg", n, 400, seed,
-                               timeout=900 if tier == "quick" else 3600)
+    gens = [fam["gen"] + ".cfg"] + list(fam.get("extra_gen", []))
+    raws = []
+    for gi, gcfg in enumerate(gens):
+        r, gout = vlib.generate(d, fam["gen"] + ".tla", gcfg, max(10, n // len(gens)), 400, seed + 1000 * gi,
+                                timeout=900 if tier == "quick" else 3600)
+        raws += r
     if len(raws) < 10:
         raise Inconclusive("scenario generator produced only %d scenarios" % len(raws))
     scs = assign_drivers(raws, fam["drivers"], "s")
     tf, rdt = vlib.run_scenarios(hv, scs, d)
     events = vlib.load_trace(tf)
+    notes = vlib.notes_of(events)
     traces = vlib.split_traces(events)
     if len(traces) != len(scs):
         raise Inconclusive("harness ran %d of %d scenarios" % (len(traces), len(scs)))
+    sched_div = sum(1 for v in notes.values() if "sched-diverged" in v)
+
+    race = None
+    if pid == "C09":
+        race = race_run(d, scs, seed, tier)
 
     # 5-6. conformance and verdict
     res = evaluate(pid, d, scs, traces)
@@ -372,6 +423,8 @@ def run(pid, tier, seed, replay=None):
         "distinct_observed_end_states": distinct_end,
         "fault_plans": planned, "fault_plans_that_hit_a_call": hit, "fault_hits_on_a_sibling_call_of_the_same_batch": drift,
         "known_findings_observed": dict(res["known"]),
+        "schedules_not_followed_by_the_real_code": sched_div,
+        "race_detector": race,
         "evaluations": len(scs), "distinct_nontrivial": distinct_end,
         "rule": "scenarios are behaviours of Helm.tla drawn by TLC -simulate (seeded); distinct_nontrivial counts distinct "
                 "projected end states (ledger + cluster) observed from the real code",
@@ -382,8 +435,14 @@ def run(pid, tier, seed, replay=None):
         "readiness and hook outcomes are scripted through the waiter (kube.Client.GetWaiter overridden), everything else is the production client",
         "faults: one injected rejection (HTTP 403 / storage error / wait error) per operation; a crash makes every later call of the process fail",
     ]
-    vlib.write_evidence(pid, tier, seed, "model_checking", cov, time.time() - t0, len(out_viol), assumptions)
-    if out_viol:
+    nviol = len(out_viol)
+    if race and (race["races"] or race["panics"]):
+        rp = os.path.join(viol_dir, "race_report.txt")
+        os.replace(race["report"], rp)
+        print("VIOLATION property=%s replay=%s check=race-detector races=%d panics=%d" % (pid, rp, race["races"], race["panics"]))
+        nviol += 1
+    vlib.write_evidence(pid, tier, seed, "model_checking", cov, time.time() - t0, nviol, assumptions)
+    if nviol:
         return 1
     if planned and hit == 0:
         raise Inconclusive("no fault plan hit a call: fault coverage would be vacuous")
